@@ -64,8 +64,12 @@ Content(cls) ==
     [] cls = "btc_junk"   -> BuildDerSig(5, 7) \o <<1>>
     [] cls = "sig_junk"   -> <<5, 7, 0>>                                   \* r || s || v in range, (almost surely) not a signature
     [] cls = "der_junk"   -> BuildDerSig(5, 7)
+    [] cls = "cmp_junk"   -> BuildCompact(5, 7)
+    [] cls = "cmp_s_zero" -> BuildCompact(5, 0)                            \* the first half is fine, the second is not
+    [] cls = "cmp_s_ge_n" -> I2OSP(5, W) \o I2OSP(N, W)
+    [] cls = "cmp_r_ge_n" -> I2OSP(N, W) \o I2OSP(7, W)
 BufClasses == {"inf", "cmp", "unc", "cmp_G", "noncanon", "offcurve", "nearcurve", "coords_near", "nonresidue", "hybrid", "badlen", "empty",
-               "sc_small", "sc_zero", "sc_nm1", "sc_n", "sc_max", "coords", "coords_bad", "xonly", "xonly_bad", "sig_junk", "der_junk", "u_exc", "spki_unc", "spki_cmp", "spki_inf", "spki_bits", "btc_junk"}
+               "sc_small", "sc_zero", "sc_nm1", "sc_n", "sc_max", "coords", "coords_bad", "xonly", "xonly_bad", "sig_junk", "der_junk", "u_exc", "spki_unc", "spki_cmp", "spki_inf", "spki_bits", "btc_junk", "cmp_junk", "cmp_s_zero", "cmp_s_ge_n", "cmp_r_ge_n"}
 
 (* every call of the API over the pool: one record per (operation, slot assignment, control bit, byte class) *)
 Calls ==
@@ -85,6 +89,9 @@ Calls ==
   \cup {[op |-> o, s |-> s, p |-> p, q |-> q] : o \in {"sc.Add", "sc.Multiply"}, s \in SS, p \in SS, q \in SS}
   \cup {[op |-> o, s |-> s, p |-> p] : o \in {"sc.Negate", "sc.Invert", "sc.Square"}, s \in SS, p \in SS}
   \cup {[op |-> "sc.Subtract", s |-> s, p |-> p, q |-> q] : s \in SS, p \in SS, q \in SS}
+  \cup {[op |-> o, b |-> b, s |-> s, t |-> t, w |-> w] : o \in {"sig.ParseCompact", "sig.ParseCompactRec", "sig.ParseDER", "sig.BuildCompact", "sig.BuildDER"},
+          b \in BS, s \in SS, t \in SS, w \in 1..WDecode}
+  \cup {[op |-> "sig.BuildCompactRec", b |-> b, s |-> s, t |-> t, c |-> c] : b \in BS, s \in SS, t \in SS, c \in {0, 1, 3}}
   \cup {[op |-> "sc.Equal", p |-> p, q |-> q] : p \in SS, q \in SS}
   \cup {[op |-> o, p |-> p] : o \in {"sc.IsZero", "sc.IsGreaterThanHalfN"}, p \in SS}
   \cup {[op |-> o, s |-> s, p |-> p, q |-> q, t |-> t] : o \in {"sc.Sum", "sc.Product"}, s \in SS, p \in SS, q \in SS, t \in SS}
@@ -200,7 +207,7 @@ CtxValid ==
      [op |-> "key.NewPrivate", b |-> 1], [op |-> "skey.FromECDSA"],
      [op |-> "key.Sign", m |-> 1, b |-> 0, c |-> 2] >>                      \* buffer 0 holds a signature handed out earlier
 SigOps == {"key.Sign", "key.Verify", "key.Recover", "skey.Sign", "spub.Verify", "btc.Verify", "key.ParseASN1"}
-ReadsBuf(ev) == ev.op \in DecodeOps \cup {"pt.NewFromBytes", "pt.FromCoords", "pt.SetUniform", "sc.SetBytes", "sc.SetCanonicalBytes", "key.NewPrivate", "key.NewPublic", "skey.New", "spub.New",
+ReadsBuf(ev) == ev.op \in DecodeOps \cup {"sig.ParseCompact", "sig.ParseCompactRec", "sig.ParseDER", "pt.NewFromBytes", "pt.FromCoords", "pt.SetUniform", "sc.SetBytes", "sc.SetCanonicalBytes", "key.NewPrivate", "key.NewPublic", "skey.New", "spub.New",
                                      "key.PubEqual", "key.PrivEqual", "spub.Equal", "skey.Equal"} \cup SigOps
 ReadSlot(ev) == IF ev.op \in {"key.Sign", "skey.Sign"} THEN ev.m ELSE ev.b           \* the buffer whose CLASS decides the outcome
 SysCalls == {ev \in AllCalls : ~IsEnv(ev) /\ (NP < 3 \/ NS < 2 \/ NB < 2 \/ TRUE)}
